@@ -27,6 +27,7 @@ QF = 'midi_types::message::QuarterFrame'
 
 RX_FIELDS = {'parser', 'channel', 'note_num', 'velocity', 'pitch_bend', 'mod_wheel', 'volume', 'vcf_cutoff', 'vcf_resonance', 'portamento_time',
              'portamento_enabled', 'sustain_enabled', 'gate', 'rising_gate', 'falling_gate', 'retrigger_mode', 'note_priority', 'held_down_notes'}
+RX_CANON_FIELDS = frozenset(RX_FIELDS)
 CONTROLLER_FIELDS = ['pitch_bend', 'mod_wheel', 'volume', 'vcf_cutoff', 'vcf_resonance', 'portamento_time',
                      'portamento_enabled', 'sustain_enabled']
 # transcription of C18: controller number -> (field, kind)
@@ -52,6 +53,11 @@ def midi_invariants(it):
         it.invariants[p] = rng(0, 127)
 
 
+class Unrepresentable(Exception):
+    """the requested combination of pending edges has no state in the receiver's representation (e.g. both edges pending
+    in a one-slot enum): the partition does not exist"""
+
+
 class Rx:
     """factory for abstract receivers / messages"""
 
@@ -63,8 +69,71 @@ class Rx:
                 'note_priority', 'held_down_notes'] + CONTROLLER_FIELDS
         located = set(self.names) | set(self.adt.get('canon_paths') or {})
         missing = [n for n in need if n not in located]
+        # the two edge latches may live in another private representation (one `enum {None, Rising, Falling}`, ...): they are
+        # then defined by what `rising_gate()` / `falling_gate()` would return (`latch`), and set through the carrier fields
+        self.latch_carriers = None
+        if {'rising_gate', 'falling_gate'} & set(missing):
+            self._find_latch_carriers()
+            if self.latch_map:
+                missing = [n for n in missing if n not in ('rising_gate', 'falling_gate')]
+                RX_FIELDS.update(self.latch_carriers)     # the write-set rules judge the carrier fields in their place
         if missing:
             raise InterpError('MonoMidiReceiver fields missing (anchor changed): %s' % missing)
+
+    def _find_latch_carriers(self):
+        """private fields of a finite type (bool, unit-only enum of this crate) that are not canonical state: candidates for
+        holding the pending edges.  Every assignment of values to them is classified by peeking at the two edge getters."""
+        import itertools
+        self.latch_map = {}
+        canon = set(RX_CANON_FIELDS) | {'parser', 'channel'}
+        cands = []
+        for i, f in enumerate(self.adt['variants'][0]['fields']):
+            if f['name'] in canon:
+                continue
+            ty = f['ty']
+            if ty.get('k') == 'bool':
+                cands.append((f['name'], [BoolV(bconst(False)), BoolV(bconst(True))]))
+            elif ty.get('k') == 'adt':
+                sub = self.facts.adts.get(ty.get('path'))
+                if sub and sub.get('crate') == 'synth_utils' and sub.get('kind') == 'enum' and len(sub['variants']) <= 4 \
+                        and all(not v.get('fields') for v in sub['variants']):
+                    cands.append((f['name'], [make_enum(self.facts, ty['path'], v['name']) for v in sub['variants']]))
+        if not cands or len(cands) > 3:
+            return
+        self.latch_carriers = [c[0] for c in cands]
+        for combo in itertools.product(*[c[1] for c in cands]):
+            it = self.interp()
+            st = State()
+            rx = it.sym_value(st, adt_ty(RX), 'self')
+            for (nm, _), v in zip(cands, combo):
+                rx.set(nm, copy.deepcopy(v))
+            r = self._peek(st.ctx, rx, 'rising_gate')
+            f_ = self._peek(st.ctx, rx, 'falling_gate')
+            if r is None or f_ is None:
+                continue
+            self.latch_map.setdefault((r, f_), [copy.deepcopy(v) for v in combo])
+
+    def _peek(self, ctx, rx, getter):
+        """what the (destructive) edge getter would return on this state: True / False / None (undecided)"""
+        with structural():
+            it = self.interp()
+            st = State()
+            st.ctx = ctx.copy()
+            try:
+                outs, cell = run_method(it, st, RX + '::' + getter, copy.deepcopy(rx), [])
+            except InterpError:
+                return None
+        vals = {bool_of(o.ctx, o.ret) for o in outs if o.status == 'returned'}
+        return next(iter(vals)) if len(vals) == 1 and None not in vals else None
+
+    def latch(self, ctx, rx, name):
+        """pending rising / falling edge of a state: the field, or what the getter of that name would return"""
+        if rx.has(name):
+            return bool_of(ctx, rx.get(name))
+        return self._peek(ctx, rx, name)
+
+    def latch_roots(self):
+        return set(self.latch_carriers or [])
 
     def interp(self):
         it = Interp(self.facts)
@@ -96,10 +165,17 @@ class Rx:
             rx.set(name, v)
         if gate is not None:
             setf('gate', BoolV(bconst(gate)))
-        if rising is not None:
-            setf('rising_gate', BoolV(bconst(rising)))
-        if falling is not None:
-            setf('falling_gate', BoolV(bconst(falling)))
+        if rx.has('rising_gate') and rx.has('falling_gate'):
+            if rising is not None:
+                setf('rising_gate', BoolV(bconst(rising)))
+            if falling is not None:
+                setf('falling_gate', BoolV(bconst(falling)))
+        elif rising is not None or falling is not None:
+            want = [(r_, f_) for (r_, f_) in self.latch_map if (rising is None or r_ == rising) and (falling is None or f_ == falling)]
+            if not want:
+                raise Unrepresentable('no state of %s has rising=%s falling=%s' % (self.latch_carriers, rising, falling))
+            for nm, v in zip(self.latch_carriers, self.latch_map[sorted(want)[0]]):
+                rx.set(nm, copy.deepcopy(v))
         if retrig is not None:
             setf('retrigger_mode', make_enum(self.facts, 'synth_utils::mono_midi_receiver::RetriggerMode', retrig))
         if prio is not None:
@@ -227,8 +303,11 @@ def check_edges_and_held(res, facts, prop):
             for prio in (prios if prop == 'C04' and mname in ('note_on', 'note_off', 'note_on_vel0') else ['Last']):
                 it = rxf.interp()
                 st = State()
-                rx = rxf.receiver(it, st, gate=ps['gate'], rising=ps['rising'], falling=ps['falling'],
-                                  retrig=ps['retrig'], prio=prio, list_len=ps['list_len'])
+                try:
+                    rx = rxf.receiver(it, st, gate=ps['gate'], rising=ps['rising'], falling=ps['falling'],
+                                      retrig=ps['retrig'], prio=prio, list_len=ps['list_len'])
+                except Unrepresentable:
+                    continue
                 pre = copy.deepcopy(rx)
                 msg = rxf.message(st, kind, ch_term=rx.get('channel').term, **kw)
                 try:
@@ -272,10 +351,12 @@ def edge_obligations(res, facts, inst, ps, mname, pre, post, o):
     """C05 transition table"""
     ctx = o.ctx
     empty_after, lst = post_len_class(o, post)
-    g, r, f = (bool_of(ctx, post.get(n)) for n in ('gate', 'rising_gate', 'falling_gate'))
+    rxf_ = Rx(facts)
+    g = bool_of(ctx, post.get('gate'))
+    r, f = rxf_.latch(ctx, post, 'rising_gate'), rxf_.latch(ctx, post, 'falling_gate')
     where = where_of(facts, RX + '::parse')
     if None in (g, r, f):
-        res.ob('R-EDGE', inst, False, 'latch not decided: gate=%r rising=%r falling=%r' % (post.get('gate'), post.get('rising_gate'), post.get('falling_gate')), where)
+        res.ob('R-EDGE', inst, False, 'latch not decided: gate=%r rising=%r falling=%r' % (post.get('gate'), r, f), where)
         return
     if mname == 'note_on':
         exp = (True, ps['rising'] or ps['retrig'] == 'AllowRetrigger' or not ps['gate'], False)
@@ -396,7 +477,10 @@ def check_edge_getters(res, facts):
             it = rxf.interp()
             st = State()
             kw = {'rising' if latch == 'rising_gate' else 'falling': val}
-            rx = rxf.receiver(it, st, **kw)
+            try:
+                rx = rxf.receiver(it, st, **kw)
+            except Unrepresentable:
+                continue
             pre = copy.deepcopy(rx)
             outs, cell = run_method(it, st, RX + '::' + meth, rx, [])
             res.absorb(it)
@@ -404,8 +488,8 @@ def check_edge_getters(res, facts):
                 post = o.cells[cell]
                 ch = spec_fields_changed(pre, post, RX_FIELDS)
                 ret = bool_of(o.ctx, o.ret)
-                after = bool_of(o.ctx, post.get(latch))
-                ok = o.status == 'returned' and ret == val and after is False and set(ch) <= {latch}
+                after = rxf.latch(o.ctx, post, latch)
+                ok = o.status == 'returned' and ret == val and after is False and set(ch) <= ({latch} | rxf.latch_roots())
                 res.ob('R-EDGE-GET', '%s|latch=%s' % (meth, val), ok,
                        'returned %s, latch after %s, changed %s' % (ret, after, ch), where_of(facts, RX + '::' + meth))
 
@@ -526,7 +610,7 @@ def check_routing(res, facts, only_other=False):
                 ok = ok and {c_.split('.')[0] for c_ in ch} <= set(CONTROLLER_FIELDS)
                 res.ob('R-ROUTE', 'cc121->reset', ok, 'not restored to the constructor defaults: %s; changed %s' % (bad, sorted(ch)), where)
             elif kind == 'notes_off':
-                ok = ch <= {'held_down_notes', 'gate', 'rising_gate', 'falling_gate'}
+                ok = ch <= ({'held_down_notes', 'gate', 'rising_gate', 'falling_gate'} | rxf.latch_roots())
                 res.ob('R-ROUTE', 'cc123->notes_off', ok, 'changed %s' % sorted(ch), where)
             n_inst += 1
         else:
